@@ -180,7 +180,9 @@ func (eng *Engine) lemmaVC(lm *Lemma) (vc *VC, err error) {
 		for _, p := range lm.Params {
 			srt, t := pe.sortOfName(p.Typ)
 			n := vc.fresh("lp."+p.Name, srt)
-			if t == nil || p.Typ == "int" {
+			if p.Typ == "introw" {
+				bind[p.Name] = specVal{term: n, kind: "row"}
+			} else if t == nil || p.Typ == "int" {
 				bind[p.Name] = mathInt(n)
 			} else {
 				bind[p.Name] = specVal{term: n, typ: t}
